@@ -180,6 +180,9 @@ func (c *ChainExec) admit(kind string, tx types.Tx, err error) string {
 }
 
 // Exec runs one op.
+// ExtraOps: extension point for further ops (consulted for op names this file does not know).
+var ExtraOps = map[string]func(c *ChainExec, toks []string) string{}
+
 func (c *ChainExec) Exec(op string) string {
 	toks := strings.Fields(op)
 	switch toks[0] {
@@ -269,6 +272,11 @@ func (c *ChainExec) Exec(op string) string {
 		fee := c.fee(gas)
 		if f := argI(toks, "feeu", -1); f >= 0 {
 			fee = units(f)
+		}
+		if rem := argI(toks, "rem", 0); rem != 0 {
+			// an account INPUT that is not a whole number of commitment units: rem wei on top of the input and of the confidential
+			// output (the fee stays exact, every commitment is built from floor(amount/unit)): the semantic check must refuse it
+			amount = new(big.Int).Add(amount, big.NewInt(rem))
 		}
 		tx, err := BuildAin(from, uint64(argI(toks, "nonce", 0)), new(big.Int).Add(amount, fee), []types.DestEntry{w.Dest(amount)}, c.LKC)
 		return c.admit("ain", tx, err)
@@ -540,6 +548,10 @@ func (c *ChainExec) Exec(op string) string {
 		}
 		c.S = s
 		return fmt.Sprintf("ok h=%d", s.App.Height())
+	}
+	// ops added by other slices without editing this file (harness/appsim/<new file>.go: func init() { ExtraOps["name"] = … })
+	if f, ok := ExtraOps[toks[0]]; ok {
+		return f(c, toks)
 	}
 	return "bad-op"
 }
